@@ -271,11 +271,41 @@ def validate_events(trace_module, consts, events, invariants=("Track",), timeout
 _built = {}
 
 
+_TWIN_RE = re.compile(r"#\[cfg\((not\()?lzma_rust2_verif\)?\)\]\n(?:#\[cfg\(feature = \"std\"\)\]\n)?fn set_error\((.*?)\) \{\n(.*?)\n\}\n", re.S)
+
+
+def sync_logic_twins():
+    """Hook H2 needs a cfg twin of `set_error` (src/lib.rs) because its parameter types name std::sync; the twin's
+    BODY is a copy of production logic. If the two bodies ever differ (someone edited only the production copy),
+    the instrumented build would not represent the code: in that case build against a scratch copy of the
+    repository in which the twin's body is replaced by the production body."""
+    global REPO
+    src = open(os.path.join(REPO, "src", "lib.rs")).read()
+    found = {("verif" if m.group(1) is None else "prod"): m for m in _TWIN_RE.finditer(src)}
+    if "verif" not in found or "prod" not in found:
+        return
+    norm = lambda b: re.sub(r"\s+", " ", b).strip()
+    if norm(found["verif"].group(3)) == norm(found["prod"].group(3)):
+        return
+    log("[twins] set_error: production body differs from the cfg twin; building against a re-synced scratch copy")
+    scratch = os.path.join(PWORK, "twinsync", "repo")
+    os.makedirs(scratch, exist_ok=True)
+    p = sh(["rsync", "-a", "--delete", "--exclude", "target", "--exclude", ".git", REPO + "/", scratch + "/"])
+    if p.returncode != 0:
+        raise ToolError("rsync for twin sync failed: " + p.stdout)
+    m = found["verif"]
+    new = src[:m.start(3)] + found["prod"].group(3) + src[m.end(3):]
+    open(os.path.join(scratch, "src", "lib.rs"), "w").write(new)
+    REPO = scratch
+
+
 def build_harness(features=None, target=None):
     """cargo build --release of the harness against /repo's working tree. Returns bin dir."""
     key = (tuple(features or ()), target)
     if key in _built:
         return _built[key]
+    if not _built:
+        sync_logic_twins()
     cmd = ["cargo", "build", "--release", "--offline"]
     env = {"CARGO_NET_OFFLINE": "true"}
     hdir = HARNESS
